@@ -160,7 +160,7 @@ def step (st : St) (f : List String) : St × String :=
         { tradeName := boolTok tn, tradeAlias := boolTok ta, grace := nat! grace, soDur := nat! soDur,
           minOffer := nat! minOffer, bidInc := nat! inc, priceExtends := nat! ext, nameSteps := natList ns,
           aliasSteps := natList as_, chainAliases := chainParams [] }
-      ({ s := { State.init with now := nat! now, p := p }, nA := nat! nA, nN := nat! nN, nL := nat! nL, nR := nat! nR }, "ok")
+      ({ s := State.start p (nat! now), nA := nat! nA, nN := nat! nN, nL := nat! nL, nR := nat! nR }, "ok")
   | ["v"] => (st, view st)
   | ["own", a] => (st, natsOrDash (ownedBy st.s (nat! a)))
   | ["res", p, n, h] =>
